@@ -400,6 +400,11 @@ pub fn run_inflate_with<B: InfBack>(data: &[u8], sched: &InfSchedule, o: &InfOpt
             return run;
         }
     };
+    if let (Some(d), true) = (o.dict, o.wbits < 0) {
+        // raw stream: the dictionary is installed before the first call (there is no NEED_DICT)
+        let dp = ar.dict.put_right(&d[..d.len().min(ar.dict.cap)]);
+        run.dict_rc = Some(be.set_dict(dp, d.len().min(ar.dict.cap)));
+    }
     let mut head_store: Option<Box<gz_header>> = None;
     if let Some(c) = &o.capture {
         let mut h = Box::new(gz_header::default());
